@@ -275,13 +275,14 @@ Definition privileged_ops : list string :=
 (* which (operation, role, component) combinations the property allows for a non-signer *)
 (* dispute messages carry [fee paid from stake?; is the dispute fully funded after the message?] *)
 Definition funded_after (params : list Z) : bool := match params with [_; 1] => true | _ => false end.
+Definition from_stake (params : list Z) : bool := match params with 1 :: _ => true | _ => false end.
 
 Definition exception_ok (op : string) (params : list Z) (role comp : string) : bool :=
   (* a funded dispute's consequences for the disputed reporter and its backers *)
   ((str_in op ["ProposeDispute"; "AddFeeToDispute"]%string) && funded_after params
      && str_in role ["disputed_reporter"; "backer_of_disputed"]%string && str_in comp ["staked"]%string)
   (* a reporter paying a dispute fee from the stake selected to it *)
-  || ((str_in op ["ProposeDispute"; "AddFeeToDispute"]%string)
+  || ((str_in op ["ProposeDispute"; "AddFeeToDispute"]%string) && from_stake params
         && (role =? "selector_of_signer")%string && (comp =? "staked")%string)
   (* removal of a selector that fell below the reporter's minimum *)
   || ((op =? "RemoveSelector")%string && (role =? "removed_selector")%string && (comp =? "selection")%string).
